@@ -93,7 +93,10 @@ class Executor3(Executor2):
             self.extra_axioms_list = []
         self.fresh_n += 1
         d = z3.Const("%s!%d" % (name, self.fresh_n), lam.sort())
-        self.extra_axioms_list.append(d == lam)
+        # definitional axiom in quantified form (forall i. d[i] == body): array lambdas make z3 give
+        # up with "incomplete (theory array)" on some of these VCs
+        v = z3.Const("v!def%d" % self.fresh_n, lam.sort().domain())
+        self.extra_axioms_list.append(z3.ForAll([v], z3.Select(d, v) == z3.Select(lam, v), patterns=[z3.Select(d, v)]))
         return d
 
     extra_axioms_list = None
@@ -389,8 +392,107 @@ class Executor3(Executor2):
         k = z3.Int("k!sl%d" % self._nf())
         return SV("bool", z3.And(na == nb, z3.ForAll([k], z3.Implies(z3.And(0 <= k, k < na), z3.Select(ela, k) == z3.Select(elb, k)))))
 
-    def _state_of(self, lv, st):
-        return getattr(lv, "_st", None) or st
+    # ---- list relations between the pre-state and the current state.  The list is named by an
+    # expression whose OWNER is evaluated in the pre-state (e.g. old parent's child list).
+    def _both(self, e_arg, st):
+        if self.old_state is None:
+            raise Unsupported("list relation outside a postcondition")
+        lv = self.ev(e_arg, self.old_state)
+        if lv.kind != "reflist" or lv.x[0] != "heap":
+            raise Unsupported("list relation on a non-field list")
+        el0, n0, owner, key = self._rl(self.old_state, lv)
+        el1, n1, _, _ = self._rl(st, lv)
+        _, pos0 = self._pos_arr(self.old_state, lv.cls)
+        _, pos1 = self._pos_arr(st, lv.cls)
+        return lv, el0, n0, el1, n1, pos0, pos1
+
+    def sp_list_same(self, e, st):
+        lv, el0, n0, el1, n1, pos0, pos1 = self._both(e.args[0], st)
+        k = z3.Int("k!ls%d" % self._nf())
+        return SV("bool", z3.And(n1 == n0, z3.ForAll([k], z3.Implies(z3.And(0 <= k, k < n0), z3.Select(el1, k) == z3.Select(el0, k)))))
+
+    def sp_list_plus(self, e, st):
+        """list_plus(L, x): L now is old(L) with x appended"""
+        lv, el0, n0, el1, n1, pos0, pos1 = self._both(e.args[0], st)
+        x = self.ev(e.args[1], st)
+        k = z3.Int("k!lp%d" % self._nf())
+        return SV("bool", z3.And(n1 == n0 + 1, z3.Select(el1, n0) == x.t,
+                                 z3.ForAll([k], z3.Implies(z3.And(0 <= k, k < n0), z3.Select(el1, k) == z3.Select(el0, k)))))
+
+    def sp_list_minus(self, e, st):
+        """list_minus(L, x): L now is old(L) with the occurrence of x (at old g_pos[x]) removed"""
+        lv, el0, n0, el1, n1, pos0, pos1 = self._both(e.args[0], st)
+        x = self.ev(e.args[1], st)
+        p = z3.Select(pos0, x.t)
+        k = z3.Int("k!lm%d" % self._nf())
+        return SV("bool", z3.And(n1 == n0 - 1,
+                                 z3.ForAll([k], z3.Implies(z3.And(0 <= k, k < n1), z3.Select(el1, k) == z3.If(k < p, z3.Select(el0, k), z3.Select(el0, k + 1))))))
+
+    def sp_list_insert(self, e, st):
+        """list_insert(L, i, x): L now is old(L) with x inserted before index i (0 <= i <= old length)"""
+        lv, el0, n0, el1, n1, pos0, pos1 = self._both(e.args[0], st)
+        i = self.ev(e.args[1], st)
+        x = self.ev(e.args[2], st)
+        k = z3.Int("k!lins%d" % self._nf())
+        return SV("bool", z3.And(n1 == n0 + 1, z3.Select(el1, i.t) == x.t,
+                                 z3.ForAll([k], z3.Implies(z3.And(0 <= k, k < n1, k != i.t),
+                                                           z3.Select(el1, k) == z3.If(k < i.t, z3.Select(el0, k), z3.Select(el0, k - 1))))))
+
+    def sp_order_kept(self, e, st):
+        """order_kept(L, x): the elements other than x that are in both old(L) and L keep their relative order"""
+        lv, el0, n0, el1, n1, pos0, pos1 = self._both(e.args[0], st)
+        x = self.ev(e.args[1], st)
+        a = z3.Const("a!ok%d" % self._nf(), Ref)
+        b = z3.Const("b!ok%d" % self._nf(), Ref)
+
+        def mem(pos, el, n, y):
+            return z3.And(y != NONE, 0 <= z3.Select(pos, y), z3.Select(pos, y) < n, z3.Select(el, z3.Select(pos, y)) == y)
+
+        body = z3.Implies(z3.And(a != x.t, b != x.t, mem(pos0, el0, n0, a), mem(pos0, el0, n0, b), mem(pos1, el1, n1, a), mem(pos1, el1, n1, b),
+                                 z3.Select(pos0, a) < z3.Select(pos0, b)), z3.Select(pos1, a) < z3.Select(pos1, b))
+        return SV("bool", z3.ForAll([a, b], body))
+
+    def sp_pos_frame(self, e, st):
+        """pos_frame(L1, L2, ...): the ghost position of every node that is in none of the listed
+        lists (neither before nor now) is unchanged"""
+        if self.old_state is None:
+            raise Unsupported("pos_frame outside a postcondition")
+        y = z3.Const("y!pf%d" % self._nf(), Ref)
+        conds = []
+        cls = None
+        for a in e.args:
+            lv, el0, n0, el1, n1, pos0, pos1 = self._both(a, st)
+            cls = lv.cls
+            own = lv.x[1].t
+            m0 = z3.And(own != NONE, 0 <= z3.Select(pos0, y), z3.Select(pos0, y) < n0, z3.Select(el0, z3.Select(pos0, y)) == y)
+            m1 = z3.And(own != NONE, 0 <= z3.Select(pos1, y), z3.Select(pos1, y) < n1, z3.Select(el1, z3.Select(pos1, y)) == y)
+            conds.append(z3.Not(m0))
+            conds.append(z3.Not(m1))
+        _, p0 = self._pos_arr(self.old_state, cls)
+        _, p1 = self._pos_arr(st, cls)
+        return SV("bool", z3.ForAll([y], z3.Implies(z3.And(*conds), z3.Select(p1, y) == z3.Select(p0, y))))
+
+    def sp_lists_frame(self, e, st):
+        """lists_frame('Class', L1, L2, ...): the child list of every object other than the owners of
+        the listed lists (owners evaluated in the pre-state) is unchanged"""
+        if self.old_state is None:
+            raise Unsupported("lists_frame outside a postcondition")
+        owners = []
+        key = None
+        for a in e.args[1:]:
+            lv = self.ev(a, self.old_state)
+            owners.append(lv.x[1].t)
+            key = lv.x[3]
+        if key is None:
+            raise Unsupported("lists_frame needs at least one list")
+        f = self.schema[key]
+        arr0, ln0 = self.heap_arrays(self.old_state, key, f)
+        arr1, ln1 = self.heap_arrays(st, key, f)
+        r = z3.Const("r!lf%d" % self._nf(), Ref)
+        k = z3.Int("k!lf%d" % self._nf())
+        same = z3.And(z3.Select(ln1, r) == z3.Select(ln0, r),
+                      z3.ForAll([k], z3.Implies(z3.And(0 <= k, k < z3.Select(ln0, r)), z3.Select(z3.Select(arr1, r), k) == z3.Select(z3.Select(arr0, r), k))))
+        return SV("bool", z3.ForAll([r], z3.Implies(z3.And(r != NONE, *[r != o for o in owners]), same)))
 
     def sp_old(self, e, st):
         v = Executor2.sp_old(self, e, st)
